@@ -124,9 +124,17 @@ class LikeSurface(core.Surface):
 
     def impl(self, x):
         from pycfmodel.model.resources.properties.statement_condition import StatementCondition
-        return core.impl_call(lambda: StatementCondition.model_validate({x["op"]: {"k": x["p"]}})({"k": x["s"]}))
+        # with ONE policy value and ONE context value every spelling of the operator asks the same question: the set qualifiers,
+        # the IfExists suffix, the value given alone or as a one-element list (seeded change C08-r4m2 short-circuited
+        # ForAnyValue:StringLike when the policy value -- a plain string -- "contained" a star)
+        op = x.get("q", "") + x["op"] + ("IfExists" if x.get("ifexists") else "")
+        pv = [x["p"]] if x.get("plist") else x["p"]
+        cv = [x["s"]] if x.get("clist") else x["s"]
+        return core.impl_call(lambda: StatementCondition.model_validate({op: {"k": pv}})({"k": cv}))
 
     def model(self, rn, x):
+        if x.get("clist") and not (x.get("q") or x.get("plist")):
+            return ("EXC", "EUndefined", "")     # a list-valued context under a plain operator with a scalar value: a type error by design
         b = rn.call(801, [x["p"], x["s"]])
         return ("OK", (not b) if "Not" in x["op"] else b)
 
@@ -153,6 +161,47 @@ class ExpandSurface(core.Surface):
 
     def nontrivial(self, x, i, m):
         return m[0] == "OK" and 0 < len(m[1]) < 18000
+
+
+class ExpandListSurface(core.Surface):
+    """a LIST of patterns matches what its members match, each as a whole-string glob (seeded change C08-r4m1 compiled a list
+    into one alternation `^a|b|c$`, which anchors only the first and the last member)"""
+    name = "_expand_actions([p1, p2, ...])"
+    theorem = "C08_ci (membership of each catalogue entry, per member)"
+
+    def impl(self, x):
+        from pycfmodel.action_expander import _expand_actions
+        return core.impl_call(lambda: _expand_actions(list(x["ps"])))
+
+    def model(self, rn, x):
+        out = set()
+        for p in x["ps"]:
+            out |= set(rn.call(803, [p], sample=False))
+        return ("OK", sorted(out))
+
+    def tags(self, x):
+        t = {"expand-list"}
+        for p in x["ps"]:
+            t |= tags_of(p)
+        return t
+
+    def nontrivial(self, x, i, m):
+        return m[0] == "OK" and 0 < len(m[1]) < 18000
+
+
+def prefix_family(rng, cat):
+    """actions one of which is a proper prefix of another (s3:GetObject / s3:GetObjectAcl ...), as literals, in both orders"""
+    for _ in range(50):
+        a = rng.choice(cat)
+        longer = [b for b in cat[max(0, cat.index(a) - 0): cat.index(a) + 40] if b != a and b.startswith(a)]
+        if longer:
+            ps = [a, rng.choice(cat)] if rng.random() < 0.5 else [a, rng.choice(longer)[: len(a) + 2] + "*"]
+            if rng.random() < 0.3:
+                ps.append(rng.choice(cat))
+            if rng.random() < 0.4:
+                ps.reverse()
+            return ps
+    return [rng.choice(cat), rng.choice(cat)]
 
 
 class SeqSurface(core.Surface):
@@ -190,7 +239,8 @@ class SeqSurface(core.Surface):
 
 
 MATCH, LIKE, EXPAND, SEQ = MatchSurface(), LikeSurface(), ExpandSurface(), SeqSurface()
-SURFACES = {s.name: s for s in (MATCH, LIKE, EXPAND, SEQ)}
+EXPAND_LIST = ExpandListSurface()
+SURFACES = {s.name: s for s in (MATCH, LIKE, EXPAND, SEQ, EXPAND_LIST)}
 LIKE_OPS = ["StringLike", "ArnLike", "StringNotLike", "ArnNotLike"]
 SMALL = ["a", "A", "*", "?", ".", "+", "(", "[", "\\"]
 
@@ -265,9 +315,14 @@ def cases(rng, tier, shard, nshards):
             yield MATCH, {"p": p, "s": s}
         else:
             p, s = gen_pair(rng, False)
-            yield LIKE, {"op": rng.choice(LIKE_OPS), "p": p, "s": s}
+            x = {"op": rng.choice(LIKE_OPS), "p": p, "s": s}
+            if k % 4 == 1:
+                x.update({"q": rng.choice(["ForAnyValue:", "ForAllValues:", "", "ForAnyValue", "ForAllValues"]), "ifexists": rng.random() < 0.3,
+                          "plist": rng.random() < 0.4, "clist": rng.random() < 0.4})
+            yield LIKE, x
         if k % (n_pairs // n_expand) == 0:
             yield EXPAND, {"p": gen_action_pattern(rng, cat)}
+            yield EXPAND_LIST, {"ps": prefix_family(rng, cat)}
             inv = inversion_patterns(cat)
             if inv:
                 yield EXPAND, {"p": rng.choice(inv)}
